@@ -2,6 +2,7 @@ package sx
 
 import (
 	"fmt"
+	"os"
 	"go/token"
 	"go/types"
 	"sort"
@@ -100,6 +101,8 @@ type State struct {
 	PC      []*Term // conjuncts of G in the order they were added (keeps ite conditions local at merges)
 	Known   map[string]*Term
 	Facts   *FactSet
+	NextObj int   // per-state allocation counter (see newObj)
+	Tags    []int // case-split tags (zzvrf.Fork/Join): states with different tags never merge
 	key     []int
 	dead    bool
 }
@@ -127,7 +130,10 @@ type Exec struct {
 	cfg    Config
 	infos  map[*ssa.Function]*FnInfo
 	nextFn int
-	nextOb int
+	nextOb  int
+	curSite int
+	allocSeq int
+	sites   map[ssa.Instruction]int
 
 	Obligations []*Obligation
 	Inputs      []*Input
@@ -151,6 +157,8 @@ type Exec struct {
 	feas *Solver // optional feasibility solver
 
 	uf map[string][]ufApp
+
+	lastClock *Term
 }
 
 type ufApp struct {
@@ -173,6 +181,7 @@ func NewExec(prog *ssa.Program, cfg Config) *Exec {
 		FnsExecuted: map[string]int{}, StubsHit: map[string]int{}, Redirects: map[string]*ssa.Function{},
 		uf: map[string][]ufApp{}}
 	x.nextOb = 1
+	x.sites = map[ssa.Instruction]int{}
 	return x
 }
 
@@ -187,11 +196,96 @@ func (x *Exec) fail(format string, a ...interface{}) {
 	panic(&EngineError{fmt.Sprintf(format, a...)})
 }
 
+// newObj allocates a heap object. The object id is a hash of the allocating position: the thread,
+// its frame chain (function, call position, loop iteration counters of every live frame) and the
+// allocating instruction. States that can merge have equal frame chains by construction, so sibling
+// states executing "the same" allocation obtain the same id and, after a merge, the two objects are
+// one cell (ite of the contents) instead of a guarded two-target pointer. Ids are unique within a
+// state: a position cannot be executed twice in one history without a loop counter changing, and an
+// id already present in the heap is never reused (salted re-hash).
 func (x *Exec) newObj(v Value, s *State) int {
-	id := x.nextOb
-	x.nextOb++
-	s.Heap[id] = v
-	return id
+	const (
+		offset = 14695981039346656037
+		prime  = 1099511628211
+	)
+	h := uint64(offset)
+	mix := func(n int) {
+		h ^= uint64(n) + 0x9e3779b97f4a7c15
+		h *= prime
+	}
+	if len(s.Threads) > 0 {
+		t := s.thread()
+		mix(t.ID)
+		for _, f := range t.Frames {
+			mix(f.Info.ID)
+			mix(f.Block)
+			mix(f.PC)
+			for _, hd := range f.Info.Loops[f.Block] {
+				mix(hd)
+				mix(f.Iter[hd])
+			}
+		}
+	}
+	mix(x.curSite)
+	switch c := v.(type) {
+	case *StructVal:
+		mix(100 + len(c.F))
+	case *ArrayVal:
+		mix(2)
+		if len(c.E) > 0 {
+			switch e := c.E[0].(type) {
+			case *Term:
+				mix(10 + e.W)
+			case *StrVal:
+				mix(3)
+			case *StructVal:
+				mix(100 + len(e.F))
+			case *PtrVal:
+				mix(4)
+			case *IfaceVal:
+				mix(5)
+			case *SliceVal:
+				mix(6)
+			}
+		}
+	case *MapObj:
+		mix(7)
+	case *ChanObj:
+		mix(8 + 16*c.Cap)
+	case *OpaqueVal:
+		mix(9)
+	case *Term:
+		mix(10 + c.W)
+	case *StrVal:
+		mix(3)
+	case *PtrVal:
+		mix(4)
+	case *IfaceVal:
+		mix(5)
+	case *SliceVal:
+		mix(6)
+	case *FuncVal:
+		mix(11)
+	}
+	mix(x.allocSeq)
+	x.allocSeq++
+	for {
+		id := int(h>>5) | 1
+		if _, used := s.Heap[id]; !used {
+			s.Heap[id] = v
+			return id
+		}
+		mix(7)
+	}
+}
+
+func (x *Exec) siteOf(ins ssa.Instruction) int {
+	if n, ok := x.sites[ins]; ok {
+		return n
+	}
+	n := len(x.sites) + 1
+	x.sites[ins] = n
+	return n
 }
 
 func (x *Exec) freshName(prefix string) string {
@@ -353,8 +447,9 @@ func (t *Thread) clone() *Thread {
 }
 
 func (s *State) clone() *State {
-	n := &State{G: s.G, Cur: s.Cur, Step: s.Step, Facts: s.Facts.clone()}
+	n := &State{G: s.G, Cur: s.Cur, Step: s.Step, Facts: s.Facts.clone(), NextObj: s.NextObj}
 	n.PC = append([]*Term(nil), s.PC...)
+	n.Tags = append([]int(nil), s.Tags...)
 	n.Heap = make(map[int]Value, len(s.Heap)+8)
 	for k, v := range s.Heap {
 		n.Heap[k] = v
@@ -418,6 +513,8 @@ func (x *Exec) posKey(s *State) []int {
 		}
 		k = append(k, -5, st, p)
 	}
+	k = append(k, -9)
+	k = append(k, s.Tags...)
 	s.key = k
 	return k
 }
@@ -525,6 +622,9 @@ func (x *Exec) mergeable(a, b *State) bool {
 // merge folds b into a (guards are disjoint).
 func (x *Exec) merge(a, b *State) *State {
 	x.NMerges++
+	if os.Getenv("GOSMT_DEBUGMERGE") != "" && (len(a.Tags) > 0 || len(b.Tags) > 0) {
+		fmt.Printf("MERGE tags %v %v at %s\n", a.Tags, b.Tags, x.posOf(a))
+	}
 	tb := x.tb
 	// local selecting condition: drop the common prefix of the two path conditions
 	k := 0
@@ -539,7 +639,10 @@ func (x *Exec) merge(a, b *State) *State {
 		cb = tb.And(cb, t)
 	}
 	c := ca // condition selecting a's values
-	out := &State{Cur: a.Cur, Step: a.Step, Facts: intersectFacts(a.Facts, b.Facts)}
+	out := &State{Cur: a.Cur, Step: a.Step, Facts: intersectFacts(a.Facts, b.Facts), Tags: a.Tags, NextObj: a.NextObj}
+	if b.NextObj > out.NextObj {
+		out.NextObj = b.NextObj
+	}
 	if ca.IsTrue() || cb.IsTrue() {
 		// degenerate (one guard subsumes the other): fall back to full guards
 		c = a.G
